@@ -149,3 +149,48 @@ def run(ctx):
     else:
         r.lost(rule, 'process_chunk', 'client process_chunk not found')
     r.assumptions += ['tokio::sync::oneshot::Sender is not Clone and send(self) consumes it (library contract)']
+    earliest_deadline(ctx)
+
+
+def earliest_deadline(ctx, rule='earliest-deadline'):
+    """TransportState::next_timeout must hand back the EARLIEST deadline still pending (the sleep until the next expiry scan):
+    the running value is replaced by a request's deadline only when it is None or later than that deadline, and a request is
+    queued for BadTimeout exactly under deadline <= now"""
+    from ..facts import fmt_lit
+    r, db = ctx.r, ctx.db
+    b = db.body('client::transport::core::TransportState::next_timeout')
+    if b is None:
+        r.lost(rule, 'next_timeout', 'TransportState::next_timeout not found'); return
+    F = ctx.facts(b)
+    nt = b.local_by_name('next_timeout')
+    if not nt:
+        r.lost(rule, 'next_timeout:local', 'local next_timeout not found'); return
+    n = 0; probs = []
+    for d in b.defs().get(nt[0], []):
+        if d[0] != 'stmt':
+            continue
+        sy = F.sym_rvalue(d[3], 0, d[1])
+        if not (sy[0] == 'agg' and sy[3] == 'Some'):
+            continue
+        n += 1
+        lits = [fmt_lit(b, l) for l, e in F.literals_at(d[1], d[2])]
+        first = any(re.match(r'^next_timeout\(_\d+\) is None$', x) for x in lits)
+        later = any(re.match(r'^PartialOrd::gt\(&next_timeout\(_\d+\)@Some\.0, &\*?.*\.deadline\) == True$', x) or
+                    re.match(r'^PartialOrd::lt\(&\*?.*\.deadline, &next_timeout\(_\d+\)@Some\.0\) == True$', x) for x in lits)
+        pending = any(re.match(r'^PartialOrd::le\(&\*?.*\.deadline, &Instant::now\(\)\) == False$', x) or re.match(r'^PartialOrd::gt\(&\*?.*\.deadline, &Instant::now\(\)\) == True$', x) for x in lits)
+        if not ((first or later) and pending):
+            probs.append('next_timeout is replaced by a deadline under [%s]' % '; '.join(x[-70:] for x in lits if 'deadline' in x or 'next_timeout' in x))
+    pushes = [c for c in b.calls() if c.callee.endswith('Vec::push')]
+    for c in pushes:
+        n += 1
+        lits = [fmt_lit(b, l) for l, e in F.literals_at(c.bb)]
+        if not any(re.match(r'^PartialOrd::le\(&\*?.*\.deadline, &Instant::now\(\)\) == True$', x) for x in lits):
+            probs.append('a request is queued for time-out without `deadline <= now`')
+    if n < 3:
+        r.lost(rule, 'sites', 'deadline updates / time-out queueing not recognised in next_timeout'); return
+    if probs:
+        r.fail(rule, 'next_timeout', 'the transport does not wake up at the earliest pending deadline: %s - a request whose deadline passed is only timed out when a later one expires '
+               '(and a late response is still delivered as success)' % '; '.join(probs[:2]), loc=b.loc)
+    else:
+        r.ok(rule, 'next_timeout', 'the running minimum is replaced only by an earlier pending deadline; expired requests (deadline <= now) are queued for BadTimeout', loc=b.loc)
+    r.count('deadline_sites', n)
